@@ -119,6 +119,7 @@ static Verdict run(const Case &c) {
 int main(int argc, char **argv) {
     Args a = parse_args(argc, argv);
     if (!a.replay.empty()) return replay_case(a, run);
+    zygote_start(run);   // before any code under test runs in this process
     Current::install(a.failing);
     Evidence ev;
     ev.rule = "pairs (h, c) of independently generated histories (valid sessions of several mappers in both services, observations, icon fetches, noise, raw/mutated frames; no domain restriction); "
